@@ -638,7 +638,9 @@ class Timeline:
         """
         scheduled_time = self.current_time
         if quantize:
-            scheduled_time = quantize * math.ceil(float(self.current_time) / quantize)
+            # Round before taking the ceiling: current_time is an accumulated float, and a time that
+            # is already on the grid (2.0000000000000013) must not be pushed a whole quantum later.
+            scheduled_time = quantize * math.ceil(round(float(self.current_time) / quantize, 8))
         scheduled_time += delay
         action = Action(scheduled_time, function)
         self.actions.append(action)
